@@ -600,9 +600,33 @@ impl Sparse<f64> {
         theta = 0.0;
 
         let mut fresh = true; // the recurrences start ( or restart ) with this iteration
+        // restart the recurrences from the residual x really has
+        macro_rules! restart { () => { {
+            v_tld = r.clone();
+            y = v_tld.clone();
+            rho = y.norm_2();
+            w_tld = r.clone();
+            z = w_tld.clone();
+            xi = z.norm_2();
+            gamma = 1.0;
+            eta = -1.0;
+            theta = 0.0;
+            fresh = true;
+            continue;
+        } } }
+        // A breakdown of the Lanczos process ( regular once the Krylov space is exhausted ) says
+        // nothing about x, and the recurrence residual is stale by then: confirm with the true
+        // residual and restart from it, unless the recurrences have only just been started
+        macro_rules! breakdown { ( $i:expr ) => { {
+            if fresh { return Err( resid ); }
+            r = b.clone() - self.multiply( x );
+            resid = r.norm_2() / normb;
+            if resid <= tol && Self::all_finite( x ) { return Ok( $i ); }
+            restart!()
+        } } }
         for i in 1..=max_iter {
-            if rho == 0.0 { return Err( resid ); }
-            if xi == 0.0 { return Err( resid ); }
+            if rho == 0.0 { breakdown!( i - 1 ) }
+            if xi == 0.0 { breakdown!( i - 1 ) }
 
             v = v_tld.clone() / rho;
             y = y / rho;
@@ -610,7 +634,7 @@ impl Sparse<f64> {
             z = z / xi;
 
             delta = z.dot( &y );
-            if delta == 0.0 { return Err( resid ); }
+            if delta == 0.0 { breakdown!( i - 1 ) }
 
             y_tld = y.clone();
             z_tld = z.clone(); // Could have preconditioner here
@@ -625,10 +649,10 @@ impl Sparse<f64> {
 
             p_tld = self.multiply( &p );
             ep = q.dot( &p_tld );
-            if ep == 0.0 { return Err( resid ); }
+            if ep == 0.0 { breakdown!( i - 1 ) }
 
             beta = ep / delta;
-            if beta == 0.0 { return Err( resid ); }
+            if beta == 0.0 { breakdown!( i - 1 ) }
 
             v_tld = p_tld.clone() - beta * v;
             y = v_tld.clone(); // Could have preconditioner here
@@ -647,7 +671,7 @@ impl Sparse<f64> {
             theta = rho / ( gamma_1 * beta );
             gamma = 1.0 / ( 1.0 + theta * theta ).sqrt();
 
-            if gamma == 0.0 { return Err( resid ); }
+            if gamma == 0.0 { breakdown!( i - 1 ) }
 
             eta = -eta * rho_1 * gamma * gamma / ( beta * gamma_1 * gamma_1 );
 
@@ -673,18 +697,8 @@ impl Sparse<f64> {
                 resid = r.norm_2() / normb;
                 if resid <= tol && Self::all_finite( x ) { return Ok( i ); }
                 if !moved {
-                    // stagnation above the tolerance: restart the recurrences from the residual x really has
-                    v_tld = r.clone();
-                    y = v_tld.clone();
-                    rho = y.norm_2();
-                    w_tld = r.clone();
-                    z = w_tld.clone();
-                    xi = z.norm_2();
-                    gamma = 1.0;
-                    eta = -1.0;
-                    theta = 0.0;
-                    fresh = true;
-                    continue;
+                    // stagnation above the tolerance
+                    restart!()
                 }
             }
             fresh = false;
